@@ -29,7 +29,7 @@ UUID_GRID = (
 )
 
 
-def memo_check(rep, rule, world, modname, fname):
+def memo_check(rep, rule, world, modname, fname, why=None):
     """A memoising decorator on a function whose result depends on the
     argument *type* conflates ==/hash-equal arguments (True, 1, 1.0)."""
     f = world.func(modname, fname)
@@ -38,8 +38,9 @@ def memo_check(rep, rule, world, modname, fname):
     if memo:
         rep.check(rule, '%s:decorators' % fname, False,
                   '%s is memoised (%s): arguments that compare equal share '
-                  'one cache entry, e.g. %s(1.0) followed by %s(True)' % (
-                      fname, memo[0], fname, fname))
+                  'one cache entry, %s' % (
+                      fname, memo[0], why or 'e.g. %s(1.0) followed by '
+                      '%s(True)' % (fname, fname)))
     elif decs:
         rep.undecided(rule, '%s:decorators' % fname,
                       'wrapped by unrecognised decorator(s) %s' % decs)
@@ -93,7 +94,8 @@ def _tables(ctx):
 
 STR_SUBJECTS = ('true', ' True ', 'YES', '0', 'off', 'maybe', '', 'tru', 't',
                 'FALSE\n', '\ty', 'on', 'No', 'n', '1', 'f', 'yes ', '2',
-                'truee', 'o n')
+                'truee', 'o n', 'ye\u017f', 'o\ufb00', 'fal\u017fe', 'TRUE',
+                '\uff54rue', 'O\u0130')
 
 
 def _ref_bool(subject, strict, default):
@@ -201,7 +203,8 @@ def _ints(ctx):
             return ('return', False)
     grid_compare(rep, 'R14.3', 'is_int_like', 'values', outcomes,
                  {val: ('1', '01', '1.0', 1, 1.0, None, 'a', ' 1', '-5',
-                        '+5', '1_000', '', '-0', 0, (1,))}, oracle2)
+                        '+5', '1_000', '', '-0', 0, (1,), True, False,
+                        10 ** 20, '\u0661')}, oracle2)
 
 
 def _strlen(ctx):
